@@ -320,14 +320,14 @@ class ParserSim:
     def plan(self, prop, tier):
         if prop == "C10":
             if tier == "quick":
-                return [("sessions", 40000), ("sweep", len(gen.CORPUS))]
-            return [("sessions", 1200000), ("sweep", len(gen.CORPUS) + 6000)]
+                return [("sessions", 40000), ("sweep", len(gen.CORPUS)), ("marathon", 48)]
+            return [("sessions", 1200000), ("sweep", len(gen.CORPUS) + 6000), ("marathon", 3000)]
         if tier == "quick":
-            return [("sessions", 60000)]
-        return [("sessions", 2000000)]
+            return [("sessions", 60000), ("marathon", 48)]
+        return [("sessions", 2000000), ("marathon", 3000)]
 
     def batch_size(self, stratum):
-        return 500 if stratum == "sessions" else 4
+        return 500 if stratum == "sessions" else (3 if stratum == "marathon" else 4)
 
     def new_world(self, cfg, res):
         return World(cfg, res)
@@ -366,6 +366,17 @@ class ParserSim:
                "pristine_p": rng.choice([0.0, 0.02, 0.05, 0.2]), "oracle_seed": rng.randrange(2 ** 32)}
         if stratum == "sweep":
             cfg["script"] = self._sweep_script(rng, gcfg, idx)
+            return cfg
+        if stratum == "marathon":
+            # one very long-lived parser that keeps meeting new texts (bounded caches,
+            # counters and other state that only shows after hundreds of calls)
+            cfg["n_ops"] = rng.choice([800, 1500, 2500])
+            cfg["fail_bias"] = rng.choice([0.3, 0.5, 0.7])
+            cfg["new_text_p"] = rng.choice([0.6, 0.8, 0.95])
+            cfg["w"] = {"parse": 8, "tokenize": rng.choice([0, 1, 3]), "clear": rng.choice([0, 0, 1]),
+                        "edit": rng.choice([0, 1])}
+            cfg["marathon_seed"] = rng.randrange(2 ** 32)
+            cfg["pristine_p"] = 0.0
             return cfg
         # swarm weights
         fail_bias = rng.choice([0.5, 0.7, 0.85]) if prop == "C10" else rng.choice([0.15, 0.3, 0.5])
@@ -438,6 +449,9 @@ class ParserSim:
             for op in cfg["script"]:
                 yield op
             return
+        if cfg.get("stratum") == "marathon":
+            yield from self._marathon(rng, cfg)
+            return
         pool = cfg["pool"]
         w = cfg["w"]
         kinds = [k for k in ("parse", "tokenize", "clear", "edit") for _ in range(w[k])]
@@ -455,6 +469,37 @@ class ParserSim:
                 yield ["clear"]
             else:
                 yield ["edit", rng.randrange(64), rng.choice(EDITS), rng.randrange(64)]
+
+    def _marathon(self, rng, cfg):
+        gcfg = cfg["gen"]
+        seen = []
+        w = cfg["w"]
+        kinds = [k for k in ("parse", "tokenize", "clear", "edit") for _ in range(w[k])]
+        for i in range(cfg["n_ops"]):
+            k = rng.choice(kinds)
+            if k == "clear":
+                if rng.random() < 0.02:
+                    yield ["clear"]
+                continue
+            if k == "edit":
+                yield ["edit", rng.randrange(1 << 16), rng.choice(EDITS), rng.randrange(64)]
+                continue
+            if seen and rng.random() > cfg["new_text_p"]:
+                t = seen[-1 - min(len(seen) - 1, int(rng.expovariate(0.05)))] if rng.random() < 0.7 else rng.choice(seen)
+            else:
+                if rng.random() < cfg["fail_bias"]:
+                    base = gen.valid_text(rng, gcfg)
+                    q = rng.random()
+                    if q < 0.5:
+                        t = base[: rng.randint(0, max(1, len(base) - 1))]      # truncation: groups left open
+                    elif q < 0.8:
+                        t = gen.mutate(rng, base)
+                    else:
+                        t = gen.soup(rng, gcfg)
+                else:
+                    t = gen.valid_text(rng, gcfg)
+                seen.append(t)
+            yield [k, t]
 
     def shrink_ops(self, cfg, ops):
         # shorter texts: drop chunks (large first), consistently across ops using the same text
